@@ -264,9 +264,25 @@ def _gen_case(rng: random.Random, rotated=False, small=False, minsize=1):
         return t
 
     tx, ty = shift(sw, dw, ax), shift(sh, dh, ay)
+    fam = "st"
     if rotated:
-        # 90 degree rotation: x_src depends on the destination row
-        A = (F(0), ax, shift(sw, dh, ax), ay, F(0), shift(sh, dw, ay))
+        # the rest of the linear family, by WHICH coefficients are non-zero: 90 degree rotation (diagonal zero),
+        # shear in x only (b), in y only (d), both off-diagonals, with scale / mirror; magnitudes from below
+        # snap_affine's rotation tolerance 1e-8 (2^-27), just above it (2^-26), small, to large
+        fam = rng.choice(["rot90", "rot90", "b", "d", "both", "b", "d"])
+        mag = lambda: rng.choice([1, -1]) * rng.choice([F(1, 4), F(1, 2), F(1), F(2), F(1, 2**20), F(1, 2**26), F(1, 2**27)])  # noqa: E731
+        if fam == "rot90":
+            A = (F(0), ax, shift(sw, dh, ax), ay, F(0), shift(sh, dw, ay))
+        elif fam == "b":
+            A = (ax, mag(), tx, F(0), ay, ty)
+        elif fam == "d":
+            A = (ax, F(0), tx, mag(), ay, ty)
+        else:
+            while True:
+                b_, d_ = mag(), mag()
+                if ax * ay - b_ * d_ != 0:
+                    break
+            A = (ax, b_, tx, d_, ay, ty)
     else:
         A = (ax, F(0), tx, F(0), ay, ty)
     # source world transform: axis-aligned dyadic (it has to survive the xarray coordinate round trip);
@@ -277,7 +293,7 @@ def _gen_case(rng: random.Random, rotated=False, small=False, minsize=1):
     return {
         "sh": sh, "sw": sw, "dh": dh, "dw": dw, "A": A, "D": amul(St, A), "S": St,
         "sy": compositions(rng, sh), "sx": compositions(rng, sw),
-        "cy": rng.randint(1, dh + 1), "cx": rng.randint(1, dw + 1),
+        "cy": rng.randint(1, dh + 1), "cx": rng.randint(1, dw + 1), "fam": fam,
     }
 
 
@@ -544,6 +560,125 @@ def oracle_pair(R: Run, ns, case, dtype, data, attr_nd, dst_nd, sched, seed, lea
         R.oracle(okr, "chunked-differs-from-exact-nearest", cj,
                  "chunked result differs from floor-of-mapped-centre reference", sig="exact-ref")
     return whole, chunked
+
+
+# ------------------------------------------------------------------ the identity corner: dst grid == src grid
+def gen_identity(rng, dts):
+    sh, sw = rng.randint(1, 7), rng.randint(1, 7)
+    dtype = rng.choice(dts)
+    isf, isb = dtype.startswith("float"), dtype == "bool"
+
+    def regular(n):
+        k = rng.randint(1, n)
+        return tuple([k] * (n // k) + ([n % k] if n % k else []))
+
+    reg = rng.random() < 0.75
+    sy, sx = (regular(sh), regular(sw)) if reg else (compositions(rng, sh), compositions(rng, sw))
+    nds = [None, 0, 1] if isb else ([None, 3, float("nan"), -9999] if isf else [None, 0, 3])
+    attr = rng.choice(nds)
+    src_nd = rng.choice([None, None, None] + nds[1:])
+    eff = src_nd if src_nd is not None else attr
+    other = (1 - int(bool(eff))) if isb else (-7777 if isf else (5 if eff != 5 else 7))
+    dst_nd = rng.choice([None, eff, other, other])
+    mode = rng.choice(["plain", "plain", "lead", "trail", "both"])
+    lead = list(axis_chunks(rng, rng.randint(1, 4))) if mode in ("lead", "both") else None
+    trail = list(axis_chunks(rng, rng.randint(1, 3))) if mode in ("trail", "both") else None
+    nplanes = (sum(lead) if lead else 1) * (sum(trail) if trail else 1)
+    pl = np.stack([gen_data(rng, (sh, sw), dtype, (eff, attr)) for _ in range(nplanes)])
+    data = pl.reshape(((sum(lead),) if lead else ()) + ((sum(trail),) if trail else ()) + (sh, sw))
+    if trail:
+        data = np.moveaxis(data, -3, -1)
+    S = (rng.choice([1, -1]) * pow2(rng, -1, 3), F(0), F(rng.randint(-64, 64), 4), F(0), rng.choice([1, -1]) * pow2(rng, -1, 3),
+         F(rng.randint(-64, 64), 4))
+    return {"kind": "identity", "sh": sh, "sw": sw, "S": [str(v) for v in S], "dtype": dtype, "data": data_json(np.ascontiguousarray(data), dtype),
+            "attr": nd_json(attr), "src_nd": nd_json(src_nd), "dst_nd": nd_json(dst_nd), "sy": list(sy), "sx": list(sx),
+            "dst": rng.choice(["same", "equal", "equal", "crs"]), "chunks": rng.choice(["none", "none", "equal", "other"]),
+            "resampling": "nearest" if rng.random() < 0.85 else "bilinear", "lead": lead, "trail": trail,
+            "sched": rng.choice(SCHEDS), "sseed": rng.randrange(10**6)}
+
+
+def identity_one(R: Run, ns, cj):
+    """destination grid == source grid (same object / equal object / the array's own CRS), destination chunking
+    defaulted / equal / different, every nodata option: the warp still re-marks nodata -> chunked == whole"""
+    dtype, lead, trail = cj["dtype"], cj["lead"], cj["trail"]
+    data = np.asarray(cj["data"]).astype(dtype)
+    attr, src_nd, dst_nd = (nd_from_json(cj[k]) for k in ("attr", "src_nd", "dst_nd"))
+    sig = (f"identity|{cj['dst']}|chunks={cj['chunks']}|{DTYPES[dtype][0]}|nd={'a' if attr is not None else '-'}"
+           f"{'s' if src_nd is not None else '-'}{'d' if dst_nd is not None else '-'}" + ("|lead" if lead else "") + ("|trail" if trail else ""))
+    try:
+        S = tuple(F(v) for v in cj["S"])
+        sg = ns.GeoBox((cj["sh"], cj["sw"]), to_affine(ns, S), CRS)
+        ax = 1 if lead else 0
+        chunks = ((tuple(lead),) if lead else ()) + (tuple(cj["sy"]), tuple(cj["sx"])) + ((tuple(trail),) if trail else ())
+        xn = ns.wrap_xr(data, sg, nodata=attr, axis=ax)
+        xd = ns.wrap_xr(ns.da.from_array(data, chunks=chunks), sg, nodata=attr, axis=ax)
+        if cj["dst"] == "same":
+            how_n, how_d = xn.odc.geobox, xd.odc.geobox
+        elif cj["dst"] == "equal":
+            how_n = how_d = ns.GeoBox((cj["sh"], cj["sw"]), to_affine(ns, S), CRS)
+        else:
+            how_n = how_d = CRS
+        kw = {} if src_nd is None else {"src_nodata": src_nd}
+        whole = ns.xr_reproject(xn, how_n, resampling=cj["resampling"], dst_nodata=dst_nd, **kw).values
+        kwc = dict(kw)
+        if cj["chunks"] == "equal":
+            kwc["chunks"] = (cj["sy"][0], cj["sx"][0])
+        elif cj["chunks"] == "other":
+            kwc["chunks"] = (max(1, cj["sy"][0] - 1) if cj["sh"] > 1 else 2, cj["sx"][0] + 1)
+        lazy = ns.xr_reproject(xd, how_d, resampling=cj["resampling"], dst_nodata=dst_nd, **kwc)
+        declared = tuple(lazy.shape)
+        chunked = compute(ns, lazy.data, cj["sched"], cj["sseed"])
+    except Exception as e:  # pylint: disable=broad-except
+        R.oracle(False, "reproject-raises", cj, f"xr_reproject / compute raised {type(e).__name__}: {e}", sig=sig)
+        return False
+    ok_shape = tuple(chunked.shape) == tuple(whole.shape) == declared
+    R.oracle(ok_shape, "result-shape-differs", cj, f"computed {chunked.shape}, declared {declared}, in-memory {whole.shape}",
+             sig=sig + "|shape", trivial=True)
+    if not ok_shape:
+        return False
+    ok = same(whole, chunked)
+    what = ""
+    if not ok:
+        diff = ~((whole == chunked) | ((whole != whole) & (chunked != chunked)))
+        p = tuple(int(i) for i in np.argwhere(diff)[0])
+        what = (f"destination grid == source grid ({cj['dst']}), chunks={cj['chunks']}: dask-backed differs from numpy-backed at "
+                f"{int(diff.sum())} pixels, first {p}: chunked={chunked[p]} whole={whole[p]} (dtype {dtype}, nodata attr={attr} "
+                f"src_nodata={src_nd} dst_nodata={dst_nd}, {cj['resampling']}, src chunks {cj['sy']}x{cj['sx']})")
+    R.oracle(ok, "chunked-differs-from-whole", cj, what, sig=sig)
+    # exact stream: the same through the Lean model (A = identity, real dependency table)
+    eff_s0 = src_nd if src_nd is not None else attr
+    fl_collide = dtype.startswith("float") and dst_nd is not None and not (eff_s0 is not None and eqv(dst_nd, eff_s0))
+    if not lead and not trail and cj["resampling"] == "nearest" and cj["dst"] != "crs" and not fl_collide:
+        kind, lo = DTYPES[dtype]
+        cyx = kwc.get("chunks", (max(cj["sy"]), max(cj["sx"])))
+        ident = (F(1), F(0), F(0), F(0), F(1), F(0))
+        case = {"sh": cj["sh"], "sw": cj["sw"], "dh": cj["sh"], "dw": cj["sw"], "A": ident, "S": S, "D": S,
+                "sy": tuple(cj["sy"]), "sx": tuple(cj["sx"]), "cy": int(cyx[0]), "cx": int(cyx[1])}
+        sn_m = cast_nd(eff_s0, dtype)
+        dn_m = cast_nd(dst_nd if dst_nd is not None else eff_s0, dtype)
+        deps = real_deps(ns, sg, sg, case)
+        R.corr("c13 dask " + common_line(case, S, kind, lo, sn_m, dn_m, deps_s(deps), data), lambda: img_s(chunked),
+               sig=f"identity-dask|{kind}|chunks={cj['chunks']}")
+        R.corr("c13 numpy " + common_line(case, S, kind, lo, sn_m, dn_m, "-", data), lambda: img_s(whole),
+               sig=f"identity-numpy|{kind}")
+    # the in-memory result itself: source-nodata pixels are re-marked with the destination nodata, the rest is kept
+    if cj["resampling"] == "nearest" and cj["dst"] != "crs" and not dtype.startswith("float") and dtype != "bool":
+        eff_s = src_nd if src_nd is not None else attr
+        eff_d = dst_nd if dst_nd is not None else eff_s
+        if eff_s is not None:
+            src_planes, out_planes = planes_of(data, lead, trail), planes_of(chunked, lead, trail)
+            m = src_planes == eff_s
+            okm = bool(np.all(out_planes[m] == eff_d))
+            R.oracle(okm, "identity-nodata-not-remarked", cj,
+                     f"pixels equal to the source nodata {eff_s} must come out as {eff_d} even when destination grid == source grid; "
+                     f"got {np.unique(out_planes[m]).tolist()[:5]}" if not okm else "", sig=sig + "|remark", trivial=not m.any())
+            ok &= okm
+    return ok
+
+
+def identity_corner(R: Run, ns, rng, n, dts):
+    for _ in range(n):
+        identity_one(R, ns, gen_identity(rng, dts))
 
 
 # ------------------------------------------------------------------ zoom-in x sub-pixel shift x chunk boundaries
@@ -1046,6 +1181,22 @@ def joint_compute(R: Run, ns, rng, n, dts):
 
 
 # ------------------------------------------------------------------ correspondence pieces
+def lindeps_corr(R: Run, ns, case, sg, dg, S, sig):
+    """real `_check_linear` + `grid_intersect` versus the C12 model (checkLinear with snap_affine at the real
+    tolerances, gridIntersectLinear): 'general' when the relative transform is not scale + translation"""
+    def f():
+        gs = ns.GeoboxTiles(sg, (case["sy"], case["sx"]))
+        gd = ns.GeoboxTiles(dg, (case["cy"], case["cx"]))
+        if gd._check_linear(gs) is None:  # pylint: disable=protected-access
+            return "general"
+        return deps_s(gd.grid_intersect(gs))
+
+    R.corr("c13 lindeps " + " ".join([
+        ";".join(frac_s(v) for v in S), ";".join(frac_s(v) for v in case["D"]), str(case["sh"]), str(case["sw"]),
+        str(case["dh"]), str(case["dw"]), list_s(case["sy"]), list_s(case["sx"]), str(case["cy"]), str(case["cx"]),
+        frac_s(1e-3), frac_s(1e-6), frac_s(1e-8), frac_s(1e-10)]), f, sig=sig)
+
+
 def corr_lowlevel(R: Run, ns, rng, case, dtype, rotated=False, inject=False):
     """real _dask_rio_reproject / rio_reproject versus the model, arbitrary (src_nodata, dst_nodata)"""
     kind, lo = DTYPES[dtype]
@@ -1053,7 +1204,9 @@ def corr_lowlevel(R: Run, ns, rng, case, dtype, rotated=False, inject=False):
     data = gen_data(rng, (case["sh"], case["sw"]), dtype, (sn, dn))
     sg, dg, S = geoboxes(ns, case)
     deps = real_deps(ns, sg, dg, case)
-    tag = "rot" if rotated else "lin"
+    tag = case.get("fam", "rot" if rotated else "lin") if rotated else "lin"
+    if not inject:
+        lindeps_corr(R, ns, case, sg, dg, S, f"lindeps|{tag}")
     if inject:
         deps = inject_deps(rng, case, deps)
         tag += "|inj"
@@ -1167,7 +1320,7 @@ def corr_xr(R: Run, ns, rng, case, dtype):
     deps = real_deps(ns, sg, dg, case)
     sched = rng.choice(SCHEDS)
     seed = rng.randrange(10**6)
-    res = oracle_pair(R, ns, case, dtype, data, attr, dn, sched, seed, tag="lin")
+    res = oracle_pair(R, ns, case, dtype, data, attr, dn, sched, seed, tag=case.get("fam", "lin"))
     if res is None:
         return
     whole, chunked = res
@@ -1475,10 +1628,11 @@ def run(R: Run):
     # 3. leading time axis, cross CRS, other resampling (oracle only)
     extra_axes(R, ns, rng, R.pick(120, 1200))
     joint_compute(R, ns, rng, R.pick(70, 600), dts)
-    histories(R, ns, rng, R.pick(16, 120), dts)
+    histories(R, ns, rng, R.pick(14, 120), dts)
     cross_crs(R, ns, rng, R.pick(120, 1500))
     zoom_stream(R, ns, rng, R.pick(90, 900))
-    crs_churn(R, ns, rng, R.pick(180, 900))
+    identity_corner(R, ns, rng, R.pick(100, 1200), dts)
+    crs_churn(R, ns, rng, R.pick(150, 900))
 
     R.searchers.append(searcher)
     R.assumptions.append("rasterio/GDAL nearest-neighbour warp between grids of one CRS follows Model.C13.gdalNearest "
@@ -1518,6 +1672,11 @@ def replay(R: Run, rec) -> int:
     if not cj:
         print(rec.get("broken"))
         return 1
+    if cj.get("kind") == "identity":
+        identity_one(R, ns, cj)
+        for f in R.oracle_failures:
+            print("FAIL:", f["key"], f["what"])
+        return 1 if R.oracle_failures else 0
     if cj.get("kind") == "zoom":
         zoom_one(R, ns, cj)
         for f in R.oracle_failures:
